@@ -81,6 +81,8 @@ use crate::bad64_reg as bad64;
 use crate::bad64_reg::Reg;
 use vstd::std_specs::iter::IteratorSpec;
 //@ include units/C03/regs.rs
+//@ include units/C03/flags.rs
+//@ include units/C03/sem.rs
 proof fn vf_canary_aarch64() ensures false {}
 } // mod aarch64
 } // mod translator
